@@ -202,3 +202,12 @@ package proxy
 //@   loop 1
 //@     invariant len(proxy.SkipAuthCompiledRegex) == old(len(proxy.SkipAuthCompiledRegex)) + $i
 //@     invariant old(len(proxy.SkipAuthCompiledRegex)) == 0 ==> forall j :: 0 <= j && j < $i ==> proxy.SkipAuthCompiledRegex[j] != nil && regexSource(proxy.SkipAuthCompiledRegex[j]) == skip[j]
+
+// Fail-closed: configuration is accepted only if every upstream has at least one allow rule (its own or
+// the deployment default merged in by parseOptionsConfig) — an upstream open to everyone never results
+// from omission.
+//@ func SetUpstreamConfigs(uc *UpstreamConfigs, cc CookieConfig, svc *ServerConfig) error
+//@   ensures [C14] every_upstream_has_an_allow_rule: result == nil ==> forall i :: 0 <= i && i < len(uc.upstreamConfigs) ==> len(uc.upstreamConfigs[i].AllowedEmailDomains) + len(uc.upstreamConfigs[i].AllowedEmailAddresses) + len(uc.upstreamConfigs[i].AllowedGroups) > 0
+//@   loop 1
+//@     invariant (len(invalidUpstreams) == 0) <==> (forall j :: 0 <= j && j < $i ==> len(uc.upstreamConfigs[j].AllowedEmailDomains) + len(uc.upstreamConfigs[j].AllowedEmailAddresses) + len(uc.upstreamConfigs[j].AllowedGroups) > 0)
+//@     invariant len(invalidUpstreams) >= 0
